@@ -350,6 +350,28 @@ Proof.
 Qed.
 Print Assumptions gen_pdhg_partial_defaults_is_model.
 
+(* accelerated pdhg (gamma_primal or gamma_dual given; same vector program for both): iteration k
+   uses tau k, sigma k (loop-head values) in the proximals and the updated theta (theta') in the
+   relaxation; niter callbacks; the log is the trace of the model with per-iteration parameters *)
+Theorem gen_pdhg_accelerated_is_model :
+  forall (L Ladj : list R -> list R) (proxp proxd : nat -> list R -> list R) (tau sigma theta : nat -> R) (m : nat)
+         (junk : string -> list R) (niter : nat) (x : list R),
+  let I := fun k => mk_I [("tau", tau k); ("sigma", sigma k); ("theta'", theta k)]
+                         [("L", L); ("f.proximal(tau)", proxp k); ("g.convex_conj.proximal(sigma)", proxd k)]
+                         [("L.derivative.adjoint", fun _ => Ladj)] [("L.range", vzero m)] junk in
+  (pdhg_accel_dual_body = pdhg_accel_primal_body /\ pdhg_accel_dual_pre = pdhg_pre /\ pdhg_accel_primal_pre = pdhg_pre)
+  /\ exists s,
+    obind (option_map canon (exec (I 0%nat) pdhg_accel_primal_pre (mk_hst [("x", 0%nat); ("caller.x", 0%nat)] [x] [])))
+          (iterk_opt niter 0 (fun k => body_step (I k) pdhg_accel_primal_body)) = Some s
+    /\ h_log s = tracek pd_x niter 0
+                   (fun k => pdhg_step L Ladj (proxp k) (proxd k) (tau k) (sigma k) (theta k)) (pdhg_init m x None None)
+    /\ length (h_log s) = niter.
+Proof.
+  exact (fun L Ladj proxp proxd tau sigma theta m junk niter x =>
+    conj gen_pdhg_acc_same_programs (gen_pdhg_acc_run L Ladj proxp proxd tau sigma theta m junk niter x)).
+Qed.
+Print Assumptions gen_pdhg_accelerated_is_model.
+
 Theorem gen_landweber_is_model :
   forall (A : list R -> list R) (Dadj : list R -> list R -> list R) (proj : list R -> list R) (omega : R)
          (junk : string -> list R) (niter : nat) (x rhs : list R),
@@ -411,7 +433,7 @@ Print Assumptions gen_dca_prox_dca_are_models.
 Theorem gen_accelerated_proximal_gradient_is_model :
   forall (proxf gradg : list R -> list R) (gamma : R) (alpha : nat -> R) (junk : string -> list R)
          (niter : nat) (x : list R),
-  let I := fun k => mk_I [("gamma", gamma); ("alpha", alpha k)]
+  let I := fun k => mk_I [("gamma", gamma); ("alpha'", alpha k)]
                          [("f.proximal(gamma)", proxf); ("g.gradient", gradg)] [] [] junk in
   exists s,
     obind (option_map canon (exec (I 0%nat) accelerated_proximal_gradient_pre
